@@ -18,9 +18,23 @@ open JEqG
 
 abbrev Json := J Int
 
+/-- numeric keywords of an integer schema -/
+structure IntC where
+  min : Option Int := none
+  max : Option Int := none
+  exMin : Bool := false
+  exMax : Bool := false
+  /-- `multipleOf` (positive) -/
+  mult : Option Nat := none
+
+/-- `minLength`/`maxLength` (in code points) of a string schema, `minItems`/`maxItems` of an array schema -/
+structure LenC where
+  min : Nat := 0
+  max : Option Nat := none
+
 inductive Ty where
-  | int | str | bool
-  | arr (nul : Bool) (item : Ty)
+  | int (c : IntC) | str (c : LenC) | bool
+  | arr (c : LenC) (nul : Bool) (item : Ty)
   /-- name, required, nullable, type -/
   | obj (fields : List (String × Bool × Bool × Ty))
 
@@ -43,7 +57,7 @@ def encode : Ty → Val → Json
   | _, .int i => .num i
   | _, .str s => .str s
   | _, .bool b => .bool b
-  | .arr _ t, .arr xs => .arr (encodeItems t xs)
+  | .arr _ _ t, .arr xs => .arr (encodeItems t xs)
   | .obj fs, .obj ms => .obj (encodeFields fs ms)
   | _, _ => .null
 def encodeItems (t : Ty) : List Val → List Json
@@ -79,10 +93,10 @@ def requiredOk : List Field → List Val → Bool
 
 mutual
 def decode : Ty → Json → Option Val
-  | .int, .num n => some (.int n)
-  | .str, .str s => some (.str s)
+  | .int _, .num n => some (.int n)
+  | .str _, .str s => some (.str s)
   | .bool, .bool b => some (.bool b)
-  | .arr nul t, .arr xs => (decodeItems nul t xs).map .arr
+  | .arr _ nul t, .arr xs => (decodeItems nul t xs).map .arr
   | .obj fs, .obj kvs =>
     match decodeMembers fs (fs.map fun _ => .omitted) kvs with
     | some st => if requiredOk fs st then some (.obj st) else none
@@ -110,7 +124,7 @@ def names (fs : List Field) : List String := fs.map (·.1)
 
 /-- property names are distinct at every level (they are keys of one `properties` object) -/
 def Ty.WF : Ty → Prop
-  | .arr _ t => t.WF
+  | .arr _ _ t => t.WF
   | .obj fs => (names fs).Nodup ∧ WFs fs
   | _ => True
 where WFs : List Field → Prop
@@ -128,10 +142,10 @@ def memberOk (req nul : Bool) (x : Val) (p : Prop) : Prop :=
 mutual
 /-- a value of the type: what the generated Go type can hold, in states -/
 def WT : Ty → Val → Prop
-  | .int, .int _ => True
-  | .str, .str _ => True
+  | .int _, .int _ => True
+  | .str _, .str _ => True
   | .bool, .bool _ => True
-  | .arr nul t, .arr xs => WTItems nul t xs
+  | .arr _ nul t, .arr xs => WTItems nul t xs
   | .obj fs, .obj ms => WTFields fs ms
   | _, _ => False
 def WTItems (nul : Bool) (t : Ty) : List Val → Prop
@@ -155,10 +169,10 @@ mutual
     admitted, every required property present, every present property admitted, `null` only where nullable;
     properties the schema does not name are free -/
 def Valid : Ty → Json → Prop
-  | .int, .num _ => True
-  | .str, .str _ => True
+  | .int _, .num _ => True
+  | .str _, .str _ => True
   | .bool, .bool _ => True
-  | .arr nul t, .arr xs => ∀ x ∈ xs, slotOk nul x (Valid t x)
+  | .arr _ nul t, .arr xs => ∀ x ∈ xs, slotOk nul x (Valid t x)
   | .obj fs, .obj kvs => ValidFields fs kvs
   | _, _ => False
 def ValidFields : List Field → List (String × Json) → Prop
@@ -168,6 +182,58 @@ def ValidFields : List Field → List (String × Json) → Prop
      | none => req = false
      | some j => slotOk nul j (Valid t j)) ∧ ValidFields fs kvs
 end
+
+/-! ## validation keywords (C03): what `Validate()` of the generated types checks after decoding, and what the
+    schema says about documents -/
+def IntC.ok (c : IntC) (n : Int) : Bool :=
+  (match c.min with | none => true | some m => if c.exMin then decide (m < n) else decide (m ≤ n)) &&
+  (match c.max with | none => true | some m => if c.exMax then decide (n < m) else decide (n ≤ m)) &&
+  (match c.mult with | none => true | some d => n % (d : Int) == 0)
+
+def LenC.ok (c : LenC) (n : Nat) : Bool :=
+  decide (c.min ≤ n) && (match c.max with | none => true | some m => decide (n ≤ m))
+
+mutual
+/-- the generated `Validate()`: numeric bounds and `multipleOf`, string length in code points, item counts, then
+    the members; an unset or null member is skipped -/
+def validate : Ty → Val → Bool
+  | .int c, .int n => c.ok n
+  | .str c, .str s => c.ok s.length
+  | .arr c _ t, .arr xs => c.ok xs.length && validateItems t xs
+  | .obj fs, .obj ms => validateFields fs ms
+  | _, _ => true
+def validateItems (t : Ty) : List Val → Bool
+  | [] => true
+  | x :: xs => validate t x && validateItems t xs
+def validateFields : List Field → List Val → Bool
+  | (_, _, _, t) :: fs, m :: ms => validate t m && validateFields fs ms
+  | _, _ => true
+end
+
+mutual
+/-- the keywords as a predicate on documents (by recursion on the schema); `null` and absent members carry none -/
+def Constr : Ty → Json → Prop
+  | .int c, .num n => c.ok n = true
+  | .str c, .str s => c.ok s.length = true
+  | .arr c _ t, .arr xs => c.ok xs.length = true ∧ ∀ x ∈ xs, Constr t x
+  | .obj fs, .obj kvs => ConstrFields fs kvs
+  | _, _ => True
+def ConstrFields : List Field → List (String × Json) → Prop
+  | [], _ => True
+  | (n, _, _, t) :: fs, kvs =>
+    (match lookupJ kvs n with
+     | none => True
+     | some j => Constr t j) ∧ ConstrFields fs kvs
+end
+
+/-- **valid against the schema**, keywords included -/
+def SchemaValid (t : Ty) (j : Json) : Prop := Valid t j ∧ Constr t j
+
+/-- the generated server's verdict on a body: decode, then `Validate()` -/
+def accept (t : Ty) (j : Json) : Bool :=
+  match decode t j with
+  | none => false
+  | some v => validate t v
 
 /-! member names are unique at every level of the document -/
 mutual
